@@ -90,6 +90,7 @@ def _gen_mutants(bed_name: str, quick: bool, bed) -> list[tuple]:
         out.extend(W.short_strings('dyn', False))
     elif bed_name == 'rfcomm':
         seeds(W.rfcomm_seeds(bed.dlci, bed.new_dlci), fix=W.rfcomm_fix_fcs)
+        out.extend(W.rfcomm_negotiation_scripts(bed.new_dlci))
         out.extend(W.short_strings('dyn', full2))
     elif bed_name in ('hfp_ag', 'hfp_hf'):
         to_ag = bed_name == 'hfp_ag'
